@@ -51,6 +51,8 @@ def run(ctx):
     for c in cases[:1] + cases[len(cases) // 2:len(cases) // 2 + 1]:
         ctx.sample({"input": c["inp"], "shapes": [c["hs"], c["as"], c["a6s"], c["ts"]], "spec_queries": c["queries"], "spec_result": c["result"]})
 
+    doh_stage(ctx)
+
     # direction B: seeded random DNS universes (chains and loops of any length, CNAME chains, error names, poisoned answers);
     # TLC runs Resolve.tla on each recorded universe and the observed result / queries must be the specification's
     n = 400 if ctx.quick else 20000
@@ -64,3 +66,28 @@ def run(ctx):
     ctx.notes["random_zones"] = len(traces)
     ctx.sample({"random_zone_trace": [tr for tr in traces[:1]][0][:3]})
     vlib.check_traces_chunks(ctx, traces, 4000, "rz", module="TraceResolve", cfg="TraceResolve.cfg", specname="Resolve.tla (random zone)")
+
+
+def doh_stage(ctx):
+    """spec/Doh.tla: the RFC 8484 exchange every lookup goes through (status x framing x body, retried failures, context)."""
+    r = ctx.tlc("MCDoh", "MCDoh.cfg", timeout=600)
+    if r["violated"] or not r["ok"]:
+        raise vlib.Inconclusive("model-level violation in Doh.tla: %s" % r["violated"])
+    ctx.states += r["distinct"]
+    ctx.transitions += r["generated"]
+    cases = vlib.parse_emitted(r["out"])
+    f_in, f_out = ctx.path("doh.ndjson"), ctx.path("doh-obs.ndjson")
+    vlib.write_ndjson(f_in, cases)
+    rc, out = ctx.go_test("^TestDohCases$", env={"VH_IN": f_in, "VH_OUT": f_out, "VH_FULLRETRY": "0" if ctx.quick else "1"}, timeout=1200)
+    res = vlib.read_ndjson(f_out)
+    summ = [x for x in res if x.get("summary")]
+    if not summ:
+        raise vlib.Inconclusive("DoH driver did not finish:\n" + out[-1500:])
+    if summ[0].get("env"):
+        raise vlib.Inconclusive("%d DoH cases hit an environment failure" % summ[0]["env"])
+    ctx.evaluations += summ[0]["cases"]
+    ctx.traces += summ[0]["cases"] - summ[0]["bad"]
+    ctx.notes["doh_exchanges"] = summ[0]["cases"]
+    for x in res:
+        if not x.get("summary"):
+            ctx.violation("doh:" + x["key"], "DoH exchange %s: %s" % (x["key"], x["diff"][:400]), x)
